@@ -32,6 +32,7 @@ PROPS = {
             "heap": (None, ("safety",)),
             "handlers": (None, ("safety",)),
             "coldpath": (None, ("safety",)),
+            "equality": (None, ("safety",)),
             "builtins_binary": (None, ("safety",)),
             "builtins_integer": (None, ("safety",)),
             "builtins_vector": (None, ("safety",)),
@@ -44,6 +45,16 @@ PROPS = {
             "heap": (None, ALL),
             "handlers": (None, ALL),
             "coldpath": (None, ALL),
+            "equality": (["Executor::handle_equal"], ALL),
+        },
+        "kani": [],
+    },
+    "C13": {
+        "title": "Equality is structural and construction-independent (the VM's comparator, function-level)",
+        "units": {
+            "equality": (["Executor::canonical_tuple", "Executor::values_equal", "Executor::handle_equal"], ALL),
+            "rope": (None, ALL),
+            "heap": (["Executor::get_constant", "Executor::retain", "Executor::release", "Executor::push_value", "Executor::pop_value"], ALL),
         },
         "kani": [],
     },
